@@ -4,7 +4,10 @@
   In the engine nodes of different rules are merged when their snapshots are equal, and remembered values
   are keyed by snapshot. The model does exactly that (memo tables keyed by `snapE`/`snapA`). That this is
   harmless is the conjunction of
-   * `SnapInj`: equal snapshots only for equal nodes (stated in `Valid.lean`; proof: `Proofs/SnapInj.lean`);
+   * `SnapInj`: equal snapshots only for equal nodes — **proved** (`C07_snapshots_determine_nodes`,
+     `Proofs/SnapInj.lean`: the printers write a prefix code) from `FloatPF`, the injectivity of shortest float
+     formatting, for all ASTs with lexer-admissible names and no NaN constant (all NaN bit patterns print `NaN`, so
+     without that exclusion the statement is false in the model: `C07_nan_constants_collide`; no literal denotes a NaN);
    * the refinement theorem: with `SnapInj`, every rule of a knowledge base is evaluated as `specE` of its
      own tree on the current facts — a function of the rule and the facts alone.
 -/
@@ -52,7 +55,7 @@ theorem C07_meaning_is_local (c : Cfg) (v : Vis) (r : RuleEntry) :
       simp [hb]
     · cases h3
 
-/-- **With the working memory** (under `Side`, which contains `SnapInj`): the engine's run over the joint
+/-- **With the working memory** (under `Side`, whose `FloatPF` gives `SnapInj`): the engine's run over the joint
     knowledge base is the reference run, in which every firing is of a rule whose own condition holds
     (C01) and every pass reports exactly the locally satisfied rules (above). Sharing cannot be observed. -/
 theorem C07_sharing_unobservable {c : Cfg} (rc : RunCfg) (inst : Instance) (st : Store) (h : Side c inst.entries) :
@@ -61,8 +64,25 @@ theorem C07_sharing_unobservable {c : Cfg} (rc : RunCfg) (inst : Instance) (st :
   let r := execute_refines h.pure h.inj rc inst st h.wf h.frame
   ⟨r.2.1, r.2.2.1⟩
 
+/-- **Equal snapshots only for equal nodes**: for all expressions and atoms (any depth, any names the lexer admits,
+    any string/integer/boolean constants, float constants other than NaN), given only that shortest float formatting
+    is injective. The selector quirk (receiver printed twice), the unterminated argument lists and names next to
+    punctuation are all covered: the printers write a prefix code. -/
+theorem C07_snapshots_determine_nodes (hf : FloatPF) : SnapInj := snapInj_of hf
+
+/-- why validity excludes NaN constants: two different ones have one snapshot -/
+theorem C07_nan_constants_collide :
+    snapA (.const (.float 0x7ff8000000000000)) = snapA (.const (.float 0x7ff8000000000001)) := by decide +kernel
+
+/-- non-vacuity: ordinary float constants, nested selectors and calls are valid -/
+example : validE (.bin .add (.atom (.const (.float 0x3ff8000000000000)))
+    (.atom (.sel (.meth (.var (.field (.root "F") "M")) "Get" (.cons (.atom (.const (.str "k\"\n"))) .nil))
+      (.atom (.const (.int (-3))))))) = true := by decide +kernel
+
 end Grule.C07
 
+#print axioms Grule.C07.C07_snapshots_determine_nodes
+#print axioms Grule.C07.C07_nan_constants_collide
 #print axioms Grule.C07.C07_status_alone
 #print axioms Grule.C07.C07_meaning_is_local
 #print axioms Grule.C07.C07_sharing_unobservable
